@@ -1,6 +1,7 @@
 package rules
 
 import (
+	"fmt"
 	"go/token"
 	"go/types"
 	"reflect"
@@ -147,6 +148,7 @@ func c18(r *core.Run) {
 	c18Migrate(r)
 	c18ErrProp(r)
 	c18Store(r)
+	c18Bounds(r)
 	c18Codec(r)
 	c18FreshTarget(r, "C18.FRESH")
 	c07JSONSave(r, "C18.ATOMICSAVE")
@@ -681,4 +683,85 @@ func c18Store(r *core.Run) {
 func isCounterPlus(v ssa.Value) bool {
 	b, ok := v.(*ssa.BinOp)
 	return ok && b.Op == token.ADD && isLoopCounter(b.X)
+}
+
+// c18Bounds: two boundary tests on the way of a signature. (flush) A batch handed to the batch add under a test of
+// its length against 0 or 1 is handed over whenever it is NON-EMPTY — `len(batch) > 1` silently drops a final batch
+// of one. (slot) A slot number looked up in the ID→slot map is valid from 0: the test that admits it must admit 0.
+func c18Bounds(r *core.Run) {
+	p := r.P
+	n := 0
+	for _, fn := range p.FuncsIn("pkg/storage/pebbledb") {
+		// batches handed to a batch adder
+		var batches []ssa.Value
+		core.InstrsOf(fn, func(in ssa.Instruction) {
+			if c := core.CallOf(in); c != nil {
+				if g := core.StaticCallee(c); g != nil && g.Name() == "AddSignatures" && len(c.Args) >= 2 {
+					batches = append(batches, c.Args[len(c.Args)-1])
+				}
+			}
+		})
+		if len(batches) == 0 {
+			continue
+		}
+		for _, nf := range core.Nest(fn) {
+			for _, b := range nf.Blocks {
+				if len(b.Instrs) == 0 {
+					continue
+				}
+				ifi, ok := b.Instrs[len(b.Instrs)-1].(*ssa.If)
+				if !ok {
+					continue
+				}
+				op, x, y, neg, okC := core.Compare(ifi.Cond)
+				if !okC || neg {
+					continue
+				}
+				ln, isLen := isBuiltinCall(x, "len")
+				k, isK := core.ConstInt(y)
+				if !isLen || !isK || k > 1 {
+					continue
+				}
+				isBatch := false
+				for _, bt := range batches {
+					if core.Canon(core.Resolve(ln.Call.Args[0])) == core.Canon(core.Resolve(bt)) {
+						isBatch = true
+					}
+				}
+				if !isBatch {
+					continue
+				}
+				n++
+				nonEmpty := (op == token.GTR && k == 0) || (op == token.NEQ && k == 0) || (op == token.GEQ && k == 1) || (op == token.EQL && k == 0) || (op == token.LEQ && k == 0) || (op == token.LSS && k == 1)
+				r.Check(nonEmpty, "C18.BOUNDS", core.FuncName(nf)+"#flush-when-non-empty", ifi.Pos(), "a pending batch is handed over whenever it is non-empty", fmt.Sprintf("a pending batch is tested with len %s %d: a final batch of exactly one signature is dropped, the migration returns success with a short count", op, k))
+			}
+		}
+	}
+	for _, fn := range p.FuncsIn("pkg/storage/jsondb") {
+		for _, b := range fn.Blocks {
+			if len(b.Instrs) == 0 {
+				continue
+			}
+			ifi, ok := b.Instrs[len(b.Instrs)-1].(*ssa.If)
+			if !ok {
+				continue
+			}
+			op, x, y, neg, okC := core.Compare(ifi.Cond)
+			if !okC || neg {
+				continue
+			}
+			k, isK := core.ConstInt(y)
+			ex, isEx := core.Unwrap(x).(*ssa.Extract)
+			if !isK || k != 0 || !isEx || ex.Index != 0 {
+				continue
+			}
+			lk, isLk := ex.Tuple.(*ssa.Lookup)
+			if !isLk || !isStringIntMap(lk.X.Type()) {
+				continue
+			}
+			n++
+			r.Check(op == token.GEQ || op == token.LSS, "C18.BOUNDS", core.FuncName(fn)+"#slot-zero-is-valid", ifi.Pos(), "the slot test admits slot 0", "the slot number from the ID→slot map is tested with "+op.String()+" 0: the signature stored in slot 0 cannot be fetched back although it was added successfully")
+		}
+	}
+	r.Floor("C18.BOUNDS", "boundary tests on batches and slots", n, 2)
 }
